@@ -10,12 +10,16 @@
                                     object of that kind that has (attrstat: none plain fmt fmtmap)
                                     the attribute and (itemstat: 0 1) the item <name>; kind "str"
                                     is a str instance                                  -> result class
+     gs <kind> <content> <shown> <attrstat> <itemstat>
+                                    sandbox_getitem with a str-subclass key (compares like <content>, str() is
+                                    <shown>); the object has the attribute <shown> (attrstat) and the item
+                                    <content> (itemstat)                                -> result class
      walk <n> (<kind> <name> <A|I|N> <attrstat> <itemstat>) x n
                                     a chain of n objects, each exposing the next one under <name>;
                                     A = attribute step, I = string item step, N = integer item
                                     step (<name> is then a decimal number)            -> result class
      gen <sandboxed> <async> <prefix-term>   -> show (gen m e) | calls=<n> gates=<n> no_raw=<b> gated=<b>
-     gate <unsafe_callable 0|1> <alters_data 0|1> <bound str.format 0|1> <policy default|0|1>
+     gate <unsafe_callable 0|1> <alters_data 0|1> <bound str.format 0|1> <policy default|0|1> [<__call__ unsafe 0|1> <__call__ alters 0|1>]
                                     SandboxedEnvironment.call on such a callable under the default
                                     or an overridden is_safe_callable     -> events | outcome
         term: N x | C hex | GA t a | GI t t | SL t o o o | CALL t n t.. k (a t).. o o
@@ -122,6 +126,10 @@ let () =
         | "gi" -> X.sandbox_getitem !tables o (X.KStr name)
         | _ -> X.do_attr !tables o name) in
       print_endline (show_result r)
+    | ["gs"; k; c; n; astat; istat] ->
+      let content = cstr (unhex c) and shown = cstr (unhex n) in
+      let o = mkobj k shown astat istat (X.VData (nat_of_int 1)) (X.KStr content) in
+      print_endline (show_result (X.sandbox_getitem !tables o (X.KSub (content, shown))))
     | "walk" :: n :: rest ->
       let n = int_of_string n in
       let rec take k r acc = if k = 0 then List.rev acc else
@@ -141,8 +149,10 @@ let () =
       let t = X.gen m e in
       print_endline (ostr (X.show t) ^ " | calls=" ^ string_of_int (int_of_nat (X.count_calls e)) ^ " gates="
                      ^ string_of_int (int_of_nat (X.count_gates t)) ^ " no_raw=" ^ b (X.no_raw t) ^ " gated=" ^ b (X.gated t))
-    | ["gate"; u; a; fm; pol] ->
-      let c = { X.c_id = X.O; c_unsafe = (u = "1"); c_alters = (a = "1"); c_format = (fm = "1") } in
+    | "gate" :: u :: a :: fm :: pol :: more ->
+      let (cu, ca) = (match more with [x; y] -> (x = "1", y = "1") | _ -> (false, false)) in
+      let c = { X.c_id = X.O; c_unsafe = (u = "1"); c_alters = (a = "1"); c_format = (fm = "1");
+                c_call_unsafe = cu; c_call_alters = ca } in
       let verdict = (match pol with "default" -> X.is_safe_callable_default c | "1" -> true | _ -> false) in
       let (log, o) = X.gate_events verdict c in
       let ev = function X.EvCheck (_, v) -> "check:" ^ b v | X.EvInvoke _ -> "invoke" | X.EvFormat _ -> "format" in
